@@ -62,7 +62,7 @@ def inert_element(rng, spec):
     g = spec['grid']; f = gen.UNIT_F[g['unit']]
     sp = copy.deepcopy(spec)
     nodes = sorted({n for a in spec['assets'] for n in (a.get('nodes') or [])})
-    kind = gen.pick(rng, ['contract', 'simplecontract', 'transport', 'storage', 'multi', 'orderbook', 'take', 'take', 'take', 'coarse', 'plant', 'scaled', 'exttransport'])
+    kind = gen.pick(rng, ['contract', 'simplecontract', 'transport', 'storage', 'multi', 'orderbook', 'order_in_book', 'order_in_book', 'take', 'take', 'take', 'coarse', 'plant', 'scaled', 'exttransport'])
     s, e, place = outside_window(rng, g)
     name = 'inert'
     a = None
@@ -96,6 +96,15 @@ def inert_element(rng, spec):
         ob['orders'] = {kk: [vv[k] for k in keep] for kk, vv in ob['orders'].items()}
         if keep:
             a = ob
+    elif kind == 'order_in_book':
+        books = [x for x in sp['assets'] if x['type'] == 'OrderBook' and len(x['orders']['start']) >= 1]
+        if books and s is not None and e is not None and s != e:
+            # an expired / later order listed BEFORE or BETWEEN the orders of an existing book
+            bk = books[0]
+            pos_ = int(rng.integers(0, len(bk['orders']['start'])))
+            for kk, vv in (('start', s), ('end', e), ('capa', 2.), ('price', 11.)):
+                bk['orders'][kk] = list(bk['orders'][kk][:pos_]) + [vv] + list(bk['orders'][kk][pos_:])
+            return sp, 'order_in_book_' + place, ('__order__', bk['name'], pos_)
     elif kind == 'take':
         cands = [x for x in sp['assets'] if x['type'] in ('Contract', 'ExtendedTransport', 'MultiCommodityContract') and s is not None and e is not None and s != e]
         if cands:
@@ -329,7 +338,9 @@ def run_case(rng, tier, case):
         pos = 0
         for kd in k2:
             n = len(kd.snap.c)
-            if kd.args['name'] != inert_name:
+            if isinstance(inert_name, tuple) and kd.args['name'] == inert_name[1]:
+                keep += [pos + j for j in range(n) if j != inert_name[2]]          # (the book's variables without the inserted order's)
+            elif kd.args['name'] != inert_name:
                 keep += list(range(pos, pos + n))
             pos += n
         keep = np.array(keep, dtype=int)
